@@ -41,6 +41,11 @@ class Stub(Elaboratable):
 
                 define()
             s.pair[0].simultaneous(s.pair[1])
+        if kind == "sim_mt":
+            # a method related by simultaneous() to a plain (not nested) transaction
+            @def_method(m, s.pair[0], ready=s.sig["mrdyA"])
+            def _(x):
+                return {"y": x + s.sig["offA"]}
         wrap = c.get("wrapA", 0) if kind == "connect" else 0
 
         def call_write():
@@ -58,13 +63,24 @@ class Stub(Elaboratable):
             for d in reversed(range(wrap)):
                 wm = Method(name=f"W{d}")
 
-                def define(wm=wm, prev=prev):
+                def define(wm=wm, prev=prev, d=d):
                     @def_method(m, wm)
                     def _():
-                        if prev is None:
-                            call_write()
+                        def inner():
+                            if prev is None:
+                                call_write()
+                            else:
+                                prev(m)
+
+                        if c.get("cond_at") == d:
+                            # this level reaches the next one from a branch of a condition() block
+                            from transactron.lib.simultaneous import condition
+
+                            with condition(m, nonblocking=bool(c.get("cond_nb"))) as branch:
+                                with branch(s.sig["condA"]):
+                                    inner()
                         else:
-                            prev(m)
+                            inner()
 
                 define()
                 prev = wm
@@ -76,7 +92,9 @@ class Stub(Elaboratable):
             with t.body(m, ready=s.sig[f"rdy{nm}"]):
                 if kind == "connect":
                     if side == 0 and wrap:
-                        if c.get("guard_if"):
+                        if c.get("noguard"):
+                            entry(m)
+                        elif c.get("guard_if"):
                             with m.If(s.sig["guardA"]):
                                 entry(m)
                         else:
@@ -90,10 +108,21 @@ class Stub(Elaboratable):
                 elif kind == "sim_methods":
                     ret = s.pair[side](m, x=s.sig[f"arg{nm}"])
                     m.d.top_comb += s.sig[f"res{nm}"].eq(ret.y)
+                elif kind == "sim_mt" and side == 0:
+                    if not c.get("mt_guard"):
+                        ret = s.pair[0](m, x=s.sig["argA"])
+                    elif c.get("guard_if"):
+                        with m.If(s.sig["guardA"]):
+                            ret = s.pair[0](m, x=s.sig["argA"])
+                    else:
+                        ret = s.pair[0](m, x=s.sig["argA"], enable_call=s.sig["guardA"])
+                    m.d.top_comb += s.sig["resA"].eq(ret.y)
                 for k in c["extras"][side]:
                     s.extra[k].iface(m)
         if kind == "sim_trans":
             s.trans["A"].simultaneous(s.trans["B"])
+        if kind == "sim_mt":
+            s.pair[0].simultaneous(s.trans["B"])
         if c.get("third") is not None:
             t = Transaction(name="TX")
             s.trans["X"] = t
@@ -120,8 +149,10 @@ class Scen(CompScenario):
 
         for nm in "AB":
             inp(f"rdy{nm}")
-        if c.get("wrapA") and c["kind"] == "connect":
+        if (c.get("wrapA") and c["kind"] == "connect" and not c.get("noguard")) or c.get("mt_guard"):
             inp("guardA")
+        if c.get("cond_at") is not None:
+            inp("condA")
         if c.get("third") is not None:
             inp("rdyX")
         w, w2 = c["w"], c["w2"]
@@ -145,6 +176,13 @@ class Scen(CompScenario):
                 out(f"res{nm}", w)
             self.add_obs("PA.run", self.pair[0].run)
             self.add_obs("PB.run", self.pair[1].run)
+        elif c["kind"] == "sim_mt":
+            self.pair = [Method(name="PA", i=[("x", w)], o=[("y", w)])]
+            for nm in ("argA", "offA"):
+                inp(nm, w)
+            inp("mrdyA")
+            out("resA", w)
+            self.add_obs("PA.run", self.pair[0].run)
         self.extra = []
         for k in range(c["nextra"]):
             ad = Adapter(name=f"E{k}", i=[], o=[])
@@ -179,9 +217,13 @@ class Scen(CompScenario):
     def on_elab_error(self, e):
         # a simultaneity constraint on a conditionally called method is documented as unsupported: rejecting the
         # design is fine, accepting it obliges the library to keep the two bodies together
-        if self.cfg.get("wrapA") and isinstance(e, RuntimeError) and "not supported" in str(e):
+        if (self.cfg.get("wrapA") or self.cfg.get("mt_guard")) and isinstance(e, RuntimeError) and "not supported" in str(e):
             self.hit("conditionally_called_simultaneous_method_rejected")
-            self.visit(("rejected", self.cfg.get("wrapA")), nontrivial=True)
+            if self.cfg.get("cond_at") is not None:
+                self.hit("rejected_with_condition_between_guard_and_simultaneous_method")
+            if self.cfg.get("mt_guard"):
+                self.hit("rejected_conditionally_called_method_simultaneous_with_transaction")
+            self.visit(("rejected", self.cfg.get("wrapA"), self.cfg.get("cond_at"), self.cfg.get("mt_guard")), nontrivial=True)
             return True
         return False
 
@@ -189,6 +231,8 @@ class Scen(CompScenario):
         c = self.cfg
         if c["kind"] == "connect" and (c.get("wrapA") or c.get("lonely")):
             return self.check_special(cyc, stim, obs)
+        if c["kind"] == "sim_mt":
+            return self.check_mt(cyc, stim, obs)
         ra, rb = obs["TA.run"], obs["TB.run"]
         ex = c["extras"]
 
@@ -238,6 +282,20 @@ class Scen(CompScenario):
         self.visit((ea, eb, ra, rx), nontrivial=bool(ea or eb))
 
 
+    def check_mt(self, cyc, stim, obs):
+        """a method and a plain transaction related by simultaneous(): the two bodies run in the same cycles"""
+        c = self.cfg
+        pr, tb = obs["PA.run"], obs["TB.run"]
+        self.expect(pr == tb, "simultaneous-bodies-not-together",
+                    f"method PA.run={pr}, transaction TB.run={tb} (caller TA.run={obs['TA.run']}, guard={stim.get('guardA')})")
+        if pr:
+            want = (stim.get("argA", 0) + stim.get("offA", 0)) & ((1 << c["w"]) - 1)
+            self.expect(obs["resA"] == want, "simultaneous-data-mismatch", f"PA returned {obs['resA']}, expected {want}")
+            self.hit("method_and_transaction_ran_together")
+        if obs["TA.run"] and not pr:
+            self.hit("caller_ran_without_the_method")
+        self.visit((bool(pr), bool(tb), obs["TA.run"], stim.get("guardA", 1)), nontrivial=bool(stim.get("rdyA")))
+
     def check_special(self, cyc, stim, obs):
         """Connect whose write side is reached through wrapper methods under a guard, or whose read side has no
         caller at all: only the statement's two clauses apply."""
@@ -257,8 +315,10 @@ class Scen(CompScenario):
                 self.expect(obs["resA"] == stim.get("argB", 0), "simultaneous-data-mismatch",
                             f"write returned {obs['resA']}, read was called with {stim.get('argB', 0)}", direction="reverse")
             self.hit("exchange_through_wrapper" if c.get("wrapA") else "exchange")
-        if c.get("wrapA") and obs["TA.run"] and not stim.get("guardA"):
+        if c.get("wrapA") and obs["TA.run"] and not stim.get("guardA", 1):
             self.hit("wrapper_caller_ran_with_guard_low")
+        if c.get("cond_at") is not None:
+            self.hit("exchange_through_condition_branch" if wr and rd else "condition_between_caller_and_connect_idle")
         self.visit((bool(wr), bool(rd), obs["TA.run"], stim.get("guardA", 0)), nontrivial=bool(stim.get("rdyA")))
 
 
@@ -270,14 +330,16 @@ class Prop(PropBase):
             "optionally a third transaction shares one of them; 60-200 cycles; distinct = (configuration, side A enabled, side B "
             "enabled, pair ran, third ran); non-trivial = at least one side enabled")
     expected_cov = ["exchange", "pair_ran", "only_one_side_enabled", "blocked_by_third_transaction", "lonely_side_requested",
-                    "conditionally_called_simultaneous_method_rejected"]
+                    "conditionally_called_simultaneous_method_rejected", "method_and_transaction_ran_together",
+                    "rejected_conditionally_called_method_simultaneous_with_transaction",
+                    "rejected_with_condition_between_guard_and_simultaneous_method"]
     real = ["transactron.lib.connectors.Connect", "TransactionBase.simultaneous + TransactionManager._simultaneous", "transactron.lib.adapters.Adapter", "both schedulers"]
     stubs = ["caller transactions (stub Elaboratable)", "cycle driver", "oracle"]
     search_space = "Connect / simultaneous() designs x readiness histories of the callers' other methods"
     engine = "dst-component"
 
     def gen_config(self, rng, tier, idx):
-        kind = rng.choice(["connect", "connect", "sim_methods", "sim_trans"])
+        kind = rng.choice(["connect", "connect", "connect", "sim_methods", "sim_trans", "sim_mt"])
         nextra = rng.randint(0, 4)
         ids = list(range(nextra))
         rng.shuffle(ids)
@@ -294,6 +356,14 @@ class Prop(PropBase):
                 special = {"lonely": 1}
             else:
                 special = {"wrapA": rng.choice([1, 2, 2, 3]), "guard_if": int(rng.random() < 0.5)}
+                if rng.random() < 0.5:
+                    # one wrapper reaches the next level from a condition() branch; without any guard at the caller the
+                    # design is supported and the two sides of the Connect must stay together
+                    special.update({"cond_at": rng.randrange(special["wrapA"]), "cond_nb": int(rng.random() < 0.5),
+                                    "noguard": int(rng.random() < 0.4)})
+            third = None
+        if kind == "sim_mt":
+            special = {"mt_guard": int(rng.random() < 0.5), "guard_if": int(rng.random() < 0.5)}
             third = None
         return {**special, "kind": kind, "w": w, "w2": w2, "nextra": nextra, "extras": extras, "third": third,
                 "sched": rng.choice(["eager", "eager", "rr"]), "cycles": cycles,
